@@ -11,6 +11,7 @@ import (
 	"sync"
 
 	"github.com/WICG/webpackage/go/signedexchange/mice"
+	"github.com/WICG/webpackage/go/zz_verif/gen"
 	"github.com/WICG/webpackage/go/zz_verif/mon"
 	"github.com/WICG/webpackage/go/zz_verif/rmice"
 )
@@ -70,6 +71,7 @@ func one(r *mon.Run, d draft, payload []byte, rs int, class string, scheds []sch
 	var buf bytes.Buffer
 	var digest string
 	var err error
+	gen.FailedCallFirst(n, func(w io.Writer) { d.enc.Encode(w, payload, rs) })
 	p, pv := r.Call(id+"/encode", payload, func() { digest, err = d.enc.Encode(&buf, payload, rs) })
 	wantStream, wantDigest := rmice.Encode(d.ref, payload, rs)
 	det := map[string]any{"draft": string(d.enc), "record_size": rs, "payload_len": len(payload), "payload_hex": mon.Short(payload),
